@@ -63,9 +63,27 @@ def main():
                      if os.path.isfile(os.path.join(d, f)) and not f.endswith((".data", ".c", ".txt", ".h")) and os.path.getsize(os.path.join(d, f)) < 1500000]
             files = sorted(set(files + extra))
             pick = sorted(rng.sample(files, min(len(files), 140 if tier == "quick" else len(files))))
+            # every container / archive of the corpus is always in (their recognition goes through the unpack stage and helper programs)
+            pick += [f for f in files if f not in pick and is_container(open(f, "rb").read(1024))]
+            pick += [f for f in files if f not in pick and os.path.basename(f) in ("Diamond.j2b", "titletheme.fuchs", "Mexx-Paeckchen50-intro.TrackerPacker1", "Delite-NeSouthEast51-menu.ProPacker1")]   # inputs of recorded findings
             k = 0
+            # polyglots: a valid M.K. module whose first bytes also carry another format's signature, tested right after a real file of
+            # that format (recognition must not depend on what was tested before) - and its load walks the table from the top
+            mk = open(os.path.join(V.REPO, "test-dev", "data", "ode2ptk.mod"), "rb").read()
+            sigs = [(b"IMPM", ".it"), (b"Extended Module: ", ".xm"), (b"MTM\x10", ".mtm"), (b"if", ".669"), (b"FAR\xfe", ".far"), (b"MAS_UTrack_V00", ".ult"), (b"DDMF", ".mdl"), (b"PSM ", ".psm"), (b"Liquid Module:", ".liq"), (b"OKTASONG", ".okt")]
+            for sig, ext in sigs:
+                same = [f for f in files if f.lower().endswith(ext)]
+                if same: jobs.append((rng.choice(same), "corpus"))
+                p = os.path.join(tmpd, "poly%02d.mod" % k); k += 1
+                open(p, "wb").write(sig + mk[len(sig):]); jobs.append((p, "polyglot-" + ext[1:]))
             for f in pick:
                 jobs.append((f, "corpus"))
+                head = open(f, "rb").read(4096)
+                if 0 in head[:600] and len(head) > 600 and os.path.getsize(f) < 300000:
+                    # text fields filled to the brim: every NUL in the header area becomes a letter
+                    data = open(f, "rb").read()
+                    p = os.path.join(tmpd, "f%06d" % k); k += 1
+                    open(p, "wb").write(bytes((0x41 if (b == 0 and i < 600) else b) for i, b in enumerate(data))); jobs.append((p, "mutant-filled:" + os.path.basename(f)))
                 data = open(f, "rb").read()
                 if len(data) > 200000: continue
                 for kind, blob in mutate.mutants(data, rng, *((1, 2, 1) if tier == "quick" else (4, 8, 4))):
@@ -115,18 +133,18 @@ def main():
                 if tret == 0 and lret == 0 and not (name == "FILE" and cont):
                     mname = next((x.split()[2] for x in lb if x.startswith("NAME ")), None)
                     if mname is not None:
-                        tq.append("TA %s %s" % (tname, mname)); tmeta.append((rep, name, tname, mname))
+                        tq.append("TA %s %s" % (tname, mname)); tmeta.append((rep, name, tname, mname, ttype))
             if bad:
                 ck.violation(dict(rep, what=bad, broken="C11 clause on the implementation"), key="c11:" + bad.split(":")[0].split()[0] + ":" + ("ret" if "returned" in bad else "strings"))
             else:
                 ck.nontrivial(("entry", lab, hash(tuple(b[0] for b in bs))))
         if tq:
             to = V.run([model], inp="\n".join(tq) + "\n", timeout=3000).stdout.split("\n")
-            for j, (rep, name, tname, mname) in enumerate(tmeta):
+            for j, (rep, name, tname, mname, ttype) in enumerate(tmeta):
                 stats["titles_compared"] += 1
                 if j >= len(to) or to[j].strip() != "1":
                     ck.violation(dict(rep, what="%s: test title %s vs loaded module title %s do not agree up to the replacement character (extracted titles_agree)" % (name, tname, mname),
-                                      broken="C11 title clause"), key="c11:title:" + name)
+                                      broken="C11 title clause"), key="c11:title:" + (bytes.fromhex(ttype).decode("latin1") if ttype != "-" else "-"))
         if r and r.returncode != 0:
             k = len(blocks) // 8; j = jobs[min(k, len(jobs) - 1)]; blob = open(j[0], "rb").read()
             ck.violation({"engine": "entry", "label": j[1], "file": os.path.relpath(j[0], V.REPO) if j[1] == "corpus" else None, "file_hex": blob.hex() if j[1] != "corpus" and len(blob) < 200000 else None,
